@@ -21,7 +21,7 @@ CHECKS = {
           "DESIGN.md 4/C03"),
   "C07": ("model_checking",
           "exhaustive drop-order permutation enumeration x deviation-bounded schedule exploration of real endpoints; wire-ledger port life-cycle invariants; state-equality argument for repetition",
-          "All 8! orders of dropping the two port halves, client and listener on both endpoints (quick: every 7th), strided samples of the 10! orders with a pending connect and a held (or half-accepted) request, two-port orders, at d=0; selected orders and open/transfer/close cycles at d<=1/2. Oracle: both dispatchers return Ok with the link still open, no port number re-used while active, max_ports respected, exactly max_ports numbers free afterwards, no remoc task left, state after k cycles equals the initial state.",
+          "All 8! orders of dropping the two port halves, client and listener on both endpoints (quick: every 7th), strided samples of the 10! orders with a pending connect and a held (or half-accepted) request, two-port orders, at d=0; selected orders and open/transfer/close cycles at d<=2. Oracle: both dispatchers return Ok with the link still open, no port number re-used while active, max_ports respected, exactly max_ports numbers free afterwards, no remoc task left, state after k cycles equals the initial state.",
           "Unbounded repetition is argued by state equality after 0..2 cycles, not by infinite runs. Hook H2 makes port numbers re-used immediately.",
           "DESIGN.md 4/C07"),
   "C06": ("fault_enumeration",
